@@ -7,7 +7,7 @@ import ast
 import itertools
 
 from ..astutil import affine, Aff, NotAffine, src, calls_in, call_tail
-from ..interp import std_interp, module_const, Obj, EnumVal, Raised, Uninterpretable
+from ..interp import ClassTok, std_interp, module_const, Obj, EnumVal, Raised, Uninterpretable
 
 EXPLANATION = (
     "Finite-domain decision: gencode/extended_gencode/aacodons/start-codon/complement tables folded from the AST "
@@ -115,7 +115,11 @@ def r3b_codon_functions(ctx):
 
     for trip in itertools.product(letters, repeat=3):
         c = "".join(trip)
-        o = Obj("Codon", _val=c)
+        try:
+            o = it.apply(ClassTok("Codon"), [c], {}, None, 0)  # the library's own __new__ / __init__ (interning included)
+        except Raised as e:
+            fail(f"construct {c}", "gene.codon:Codon.__init__", f"Codon({c!r}) raises {e.exc_name} for an IUPAC triplet", ctx.repo.fn("gene.codon:Codon.__init__"))
+            continue
         strict_ref = REF_GENCODE.get(c)
         for strict in (True, False):
             n += 1
@@ -166,7 +170,9 @@ def r3b_codon_functions(ctx):
                 try:
                     tv = it.enum("TranslationTable")[tname]
                     res = it.call_func(is_start, [tv], {}, o)
-                    # membership is by singleton identity in the library; compare by codon text here
+                    if bool(res) != (c in ref):
+                        fail(f"is_start {tname} {c}", is_start.qual, f"Codon({c!r}).is_start_codon_in_specific_translation_table({tname}) = {res}; "
+                             f"NCBI start set of the table {'contains' if c in ref else 'does not contain'} {c}", is_start)
                 except Raised as e:
                     fail(f"is_start {tname}", is_start.qual, f"start-codon test raises {e.exc_name} for table {tname}", is_start)
     r.count(n)
@@ -180,24 +186,72 @@ def r3b_codon_functions(ctx):
 
 
 def r3c_start_membership(ctx):
-    """is_start_codon_in_specific_translation_table: membership of `self` in the table for the given key; the
-    Codon singleton makes `in` on a frozenset of Codon objects a comparison by codon text (hash = text, eq = identity
-    of the singleton)."""
+    """codon objects are interned: an answer obtained from a codon must not depend on which other spellings (lower case, RNA
+    letters, malformed text) were constructed before or after it.  Interpreted: every question is asked on a fresh
+    interpreter (only that codon constructed) and again after a barrage of other constructions; refused spellings are
+    refused every time."""
     r = ctx.r
-    f = ctx.repo.fn("gene.codon:Codon.is_start_codon_in_specific_translation_table")
-    rets = [n for n in ast.walk(f.node) if isinstance(n, ast.Return)]
-    ok = len(rets) == 1 and isinstance(rets[0].value, ast.Compare) and isinstance(rets[0].value.ops[0], ast.In) \
-        and src(rets[0].value.left) == "self" \
-        and src(rets[0].value.comparators[0]) == "START_CODONS_BY_TRANSLATION_TABLE[translation_table]"
-    r.check(ok, "C15.R3c", f.qual, "membership test", "start-codon test is not `self in TABLE[translation_table]`", f)
-    new = ctx.repo.fn("gene.codon:Codon.__new__")
-    eq = ctx.repo.fn("gene.codon:Codon.__eq__")
-    hs = ctx.repo.fn("gene.codon:Codon.__hash__")
-    r.check("_singletons_" in src(new.node) and "upper()" in src(new.node), "C15.R3c", new.qual, "singleton by upper-cased text",
-            "Codon.__new__ no longer interns by upper-cased codon text", new)
-    r.check(src(eq.node.body[-1]) == "return other is self", "C15.R3c", eq.qual, "identity equality",
-            "Codon.__eq__ is not identity of the interned singleton", eq)
-    r.check("hash(self._val)" in src(hs.node), "C15.R3c", hs.qual, "hash of text", "Codon.__hash__ is not hash of text", hs)
+    repo = ctx.repo
+    qs = {"translate": repo.fn("gene.codon:Codon.translate"), "is_stop": repo.fn("gene.codon:Codon.is_stop_codon"),
+          "is_strict": repo.fn("gene.codon:Codon.is_strict_codon"), "is_canon": repo.fn("gene.codon:Codon.is_canonical_start_codon"),
+          "syn": repo.fn("gene.codon:Codon.synonymous_codons")}
+    is_start = repo.fn("gene.codon:Codon.is_start_codon_in_specific_translation_table")
+    new = repo.fn("gene.codon:Codon.__new__")
+
+    def answers(it, o):
+        out = {"str": it.py_str(o), "hash text": o.fields.get("_val")}
+        for k, f in qs.items():
+            try:
+                v = it.call_func(f, [], {}, o)
+                out[k] = sorted(x.fields["_val"] for x in v) if isinstance(v, list) else v
+            except Raised as e:
+                out[k] = ("raise", e.exc_name)
+        for t in ("DEFAULT", "STANDARD", "PROKARYOTE"):
+            try:
+                out[f"start {t}"] = bool(it.call_func(is_start, [it.enum("TranslationTable")[t]], {}, o))
+            except Raised as e:
+                out[f"start {t}"] = ("raise", e.exc_name)
+        return out
+
+    probes = ["ATG", "TTG", "CTG", "GTG", "ATT", "TAA", "TGA", "GCT", "AAA", "NNN"]
+    barrage = ["AUG", "aug", "atg", "UUG", "uug", "CUG", "GUG", "AUU", "UAA", "UGA", "GCU", "gcu", "nnn", "A-G", "AT", "XYZ", "ATGA", "A-G", "AT"]
+    n = 0
+    bad = None
+    for order in ("before", "after"):
+        it = std_interp(repo, max_steps=50_000_000)
+        held = {}
+        if order == "after":
+            for c in probes:
+                held[c] = it.apply(ClassTok("Codon"), [c], {}, None, 0)
+        refused = {}
+        for c in barrage:
+            try:
+                it.apply(ClassTok("Codon"), [c], {}, None, 0)
+                refused.setdefault(c, []).append("ok")
+            except Raised as e:
+                refused.setdefault(c, []).append(e.exc_name)
+        for c, outcomes in refused.items():
+            n += 1
+            if len(set(outcomes)) > 1 and bad is None:
+                bad = (f"repeated construction of {c!r}", f"Codon({c!r}) is {outcomes[0]} the first time and {outcomes[1]} the second: a refused "
+                       f"spelling stays in the intern table")
+        for c in probes:
+            n += 1
+            fresh_it = std_interp(repo, max_steps=50_000_000)
+            want = answers(fresh_it, fresh_it.apply(ClassTok("Codon"), [c], {}, None, 0))
+            o = held.get(c) or it.apply(ClassTok("Codon"), [c], {}, None, 0)
+            got = answers(it, o)
+            if got != want and bad is None:
+                k = [x for x in want if got.get(x) != want[x]][0]
+                bad = (f"codon {c} held {order} other spellings were constructed",
+                       f"Codon({c!r}) {'obtained before' if order == 'after' else 'constructed after'} constructing {barrage[:6]}...: `{k}` answers "
+                       f"{got.get(k)!r}; on its own it answers {want[k]!r}")
+    r.count(n)
+    if bad:
+        r.violation("C15.R3c", new.qual, bad[0], bad[1], new)
+    else:
+        r.ok("C15.R3c", new.qual, "answers of interned codons independent of other constructions; refusals repeatable", new,
+             f"{n} comparisons against fresh interpreters")
 
 
 def r4_complement(ctx):
@@ -449,6 +503,13 @@ def r7_biotype(ctx):
         r.check(must in seen_names, "C15.R7", "gene.biotype:Biotype", f"spelling {must}", f"biotype spelling {must!r} missing", where)
 
 
+def r8_tables_in_use(ctx):
+    """the consumer of the tables: CDSInterval.translate applies exactly the start set of the table it is given (ATG only when
+    none is given) - shared kernel with C05.RT"""
+    from .c05 import rt_designed_translation
+    rt_designed_translation(ctx, "C15.R8")
+
+
 RULES = [
     ("C15.R1", r1_gencode),
     ("C15.R2", r2_extended),
@@ -459,4 +520,5 @@ RULES = [
     ("C15.R5", r5_frames),
     ("C15.R6", r6_strand),
     ("C15.R7", r7_biotype),
+    ("C15.R8", r8_tables_in_use),
 ]
